@@ -114,7 +114,19 @@ def _sim_rename(src, dst, *a, **kw):
     return r
 
 
+# disk-error fault: listing a working directory under <instance>/stages fails (EIO) during seeded windows of
+# virtual time [[start, end], ...] (what a flaky shared file system does to the monitors of repeating engines)
+LISTDIR_FAULT = {'windows': [], 't0': 0.0}
+
+
 def _sim_listdir(path='.'):
+    w = LISTDIR_FAULT['windows']
+    if w and isinstance(path, str) and os.sep + 'stages' + os.sep in path and simk.K is not None and simk.K.active:
+        t = simk.K.clock - LISTDIR_FAULT['t0']
+        if any(a <= t < b for (a, b) in w):
+            if REC is not None:
+                REC.count('fault.listdir_eio')
+            raise OSError(5, 'simulated I/O error while listing', path)
     return sorted(_orig_listdir(path))
 
 
